@@ -375,6 +375,14 @@ func (conn *obfs4Conn) clientHandshake(nodeID *ntor.NodeID, peerIdentityKey *nto
 		conn.encoder = framing.NewEncoder(okm[:framing.KeyLength])
 		conn.decoder = framing.NewDecoder(okm[framing.KeyLength:])
 
+		// Whatever followed the server handshake in the same segment(s) (the
+		// inline PRNG seed frame, and possibly payload) is already buffered.
+		// Decode it now, since Read() always waits for more data from the
+		// network first, and would leave it undelivered till then.
+		if err = conn.decodePackets(); err != nil && !errors.Is(err, framing.ErrAgain) {
+			return err
+		}
+
 		return nil
 	}
 }
